@@ -278,3 +278,10 @@ package asp
 //@   opt precall=off
 //@   ensures constants_are_handed_out_as_copies [C16 C17]: old(expr.optimised != nil && expr.optimised.Constant != nil) ==> called("freshConstant")
 //@   callsite freshConstant of_the_stored_constant [C16 C17]: arg_c == expr.optimised.Constant
+// freshConstant: a list constant is rebuilt element by element (recursively, so nested literals are fresh too);
+// every other constant is immutable and returned as it is.
+//@ func freshConstant
+//@   modifies nothing
+//@   invariant "range l" copied: len(ret) == len(l)
+//@   ensures lists_are_rebuilt [C16 C17]: dyntype(c, pyList) ==> dyntype(result, pyList) && len(unbox(result, pyList)) == len(unbox(c, pyList))
+//@   ensures other_constants_unchanged [C16]: !dyntype(c, pyList) ==> result == c
